@@ -5,5 +5,5 @@ CONSTANTS
   SetOrder = FALSE
   Timestamps = TRUE
   ComponentMemo = FALSE
-  FailureCorrupts = FALSE
+  FailureCorrupts = TRUE
 INVARIANT ContentIsFunctionOfModel
